@@ -94,6 +94,8 @@ pub struct ReaderState {
     pub default_cap: usize,
     pub eof: bool,
     pub err: bool,
+    /// the next read fails once with this (transient) error kind although data may be readable behind it
+    pub transient_err: Option<io::ErrorKind>,
     pub waker: Option<Waker>,
     pub reads: u64,
     pub pendings: u64,
@@ -117,6 +119,7 @@ impl MockReader {
             default_cap: usize::MAX,
             eof: false,
             err: false,
+            transient_err: None,
             waker: None,
             reads: 0,
             pendings: 0,
@@ -139,6 +142,10 @@ impl AsyncRead for MockReader {
         if buf.is_empty() {
             s.zero_len_reads += 1;
             return Poll::Ready(Ok(0));
+        }
+        if let Some(kind) = s.transient_err.take() {
+            s.err_signalled = true;
+            return Poll::Ready(Err(io::Error::new(kind, "mock transient read error")));
         }
         if !s.data.is_empty() {
             let cap = s.caps.pop_front().unwrap_or(s.default_cap).max(1);
@@ -944,6 +951,21 @@ impl Sim {
             r.eof = true;
             r.waker.take()
         };
+        if let Some(w) = w {
+            w.wake();
+        }
+    }
+
+    /// The next read reports a transient error (EINTR / EAGAIN style) once, with `bytes` readable behind it; one wakeup.
+    pub fn set_transient_read_err(&mut self, kind: io::ErrorKind, bytes: &[u8]) {
+        self.note(|| format!("transport: one read fails with {kind:?}, {} bytes readable behind it", bytes.len()));
+        let w = {
+            let mut r = self.reader.0.borrow_mut();
+            r.transient_err = Some(kind);
+            r.data.extend(bytes.iter().copied());
+            r.waker.take()
+        };
+        self.fed += bytes.len() as u64;
         if let Some(w) = w {
             w.wake();
         }
